@@ -17,6 +17,10 @@ def _fam(**kw):
     return f
 
 
+S = [1, 2, 3]
+T = [1, 2, 3]
+
+
 def c01(c):
     """acknowledged elements are returned exactly as written: batches of 1..3 elements, several series / timestamps
     (several elements may share series and timestamp: all of them must come back), maintenance in between"""
@@ -34,9 +38,24 @@ def c01(c):
     return fams
 
 
+def c03_queries():
+    """a few criteria / ordered queries that are asked before and after every maintenance step (the part-level and
+    block-level pruning structures - time span, bloom filter, min/max - are rebuilt by flush and merge)"""
+    qs = [query(1, 3, S, crit('one', leaf(op, 'a', (v,)))) for op, v in (('eq', 0), ('ne', 1), ('ge', 1), ('le', 1), ('gt', 0), ('lt', 2))]
+    qs += [query(1, 3, S, crit('one', leaf('eq', 'b', (0,)))), query(1, 3, S, crit('one', leaf('in', 'a', (0, 2)))),
+           query(1, 3, S, crit('one', leaf('notin', 'b', (1, 2)))), query(1, 3, S, crit('one', leaf('having', 'arr', (1,)))),
+           query(1, 3, S, crit('and', leaf('ge', 'a', (1,)), leaf('ne', 'b', (2,)))), query(2, 3, [1, 2], crit('one', leaf('le', 'a', (1,)))),
+           query(1, 3, S, crit('one', leaf()), 'time', True, 0, 0), query(1, 3, S, crit('one', leaf()), 'time', False, 1, 3)]
+    return qs
+
+
 def c03(c):
-    """flush and merge (any subset of the file parts, fan-in 2..4) never change what the covering query returns"""
-    return [
+    """flush and merge (any subset of the file parts, fan-in 2..4) never change what the covering query returns -
+    nor, in the -queries families, what criteria and ordered queries return under each index configuration"""
+    qfams = [_fam(name='stream-merge-queries-' + idx, series=S, times=T, maxrows=1, maxtotal=3, maxops=3,
+                  sims=30 if c.quick else 300, simops=12, queries=c03_queries(), index=idx, sim=dict(maxrows=2, maxtotal=8))
+             for idx in ('skipping', 'inverted')]
+    return qfams + [
         _fam(name='stream-merge-subsets', series=[1, 2], times=[1, 2], maxrows=1, maxtotal=4, maxops=6 if c.quick else 9,
              sims=90 if c.quick else 1500, simops=12),
         _fam(name='stream-merge-batches', series=[1, 2], times=[1, 2], maxrows=2, maxtotal=4, maxops=4 if c.quick else 7,
@@ -44,29 +63,20 @@ def c03(c):
     ]
 
 
-S = [1, 2, 3]
-T = [1, 2, 3]
-
-
-def c08_queries(ops):
-    """criteria queries over the operator set `ops` (a subset of eq ne lt le gt ge in notin having nothaving)"""
+def c08_queries(exclude=()):
+    """criteria queries over eq ne lt le gt ge (a, b), in notin (a, b), having nothaving (arr), AND / OR pairs and
+    time / series restrictions; `exclude` is a set of (operator, tag) pairs the configuration does not accept"""
+    def ok(op, tag):
+        return (op, tag) not in exclude
     leaves = []
-    for v in (0, 1, 2):
-        for op in ('eq', 'ne', 'lt', 'le', 'gt', 'ge'):
-            if op in ops:
-                leaves.append(leaf(op, 'a', (v,)))
-    for v in (0, 1, 2):
-        for op in ('eq', 'ne', 'lt', 'le', 'gt', 'ge'):
-            if op in ops:
-                leaves.append(leaf(op, 'b', (v,)))
+    for tag in ('a', 'b'):
+        for v in (0, 1, 2):
+            leaves += [leaf(op, tag, (v,)) for op in ('eq', 'ne', 'lt', 'le', 'gt', 'ge') if ok(op, tag)]
     for vs in ((0,), (0, 2), (1, 2), (0, 1, 2)):
         for op in ('in', 'notin'):
-            if op in ops:
-                leaves += [leaf(op, 'a', vs), leaf(op, 'b', vs)]
+            leaves += [leaf(op, tag, vs) for tag in ('a', 'b') if ok(op, tag)]
     for vs in ((1,), (3,), (1, 2), (2, 3), (1, 2, 3)):
-        for op in ('having', 'nothaving'):
-            if op in ops:
-                leaves.append(leaf(op, 'arr', vs))
+        leaves += [leaf(op, 'arr', vs) for op in ('having', 'nothaving') if ok(op, 'arr')]
     qs = [query(1, 3, S, crit('one', l)) for l in leaves]
     n = len(leaves)
     # AND / OR pairs spread deterministically over the leaf list (mixed tags, mixed indexed / unindexed operands)
@@ -79,14 +89,20 @@ def c08_queries(ops):
     return qs
 
 
-ALL_OPS = ('eq', 'ne', 'lt', 'le', 'gt', 'ge', 'in', 'notin', 'having', 'nothaving')
-# operators the stream engine accepts per index configuration of the tags a (int) and b (string); arr is never indexed.
-# An operator that the engine rejects with a clear error for a configuration is left out of that family (see the
-# comments); an accepted operator must return exactly the spec's rows.
-C08_OPS = {
-    'none': ALL_OPS,
-    'inverted': ALL_OPS,
-    'skipping': ALL_OPS,
+# (operator, tag) pairs that the stream engine REJECTS with an error per index configuration of the tags a (int) and
+# b (string) - arr is never indexed.  Rejected pairs are left out of that configuration's family (not a violation);
+# every accepted operator must return exactly the spec's rows.  Found empirically over gRPC:
+#   none      everything is accepted (criteria on unindexed tags are evaluated by the post-scan tag filter)
+#   inverted  everything is accepted
+#   skipping  everything is accepted once fixes/stream-merged-block-no-bounds.patch is applied.  WITHOUT that patch the
+#             block-pruning helper treats every range bound as a number and lt/le/gt/ge on the string tag b fail with
+#             STATUS_INTERNAL_ERROR "lower is not a float value" - on such a tree use
+#             {(op, 'b') for op in ('lt', 'le', 'gt', 'ge')} here.
+# (IN / NOT_IN on array tags are rejected by every configuration; the spec does not use them.)
+C08_EXCLUDE = {
+    'none': set(),
+    'inverted': set(),
+    'skipping': set(),
 }
 
 
@@ -94,7 +110,7 @@ def c08(c):
     fams = []
     for idx in ('none', 'inverted', 'skipping'):
         fams.append(_fam(name='stream-criteria-' + idx, series=S, times=T, maxrows=1, maxtotal=3, maxops=3,
-                         sims=40 if c.quick else 400, simops=11, queries=c08_queries(C08_OPS[idx]), index=idx,
+                         sims=40 if c.quick else 400, simops=11, queries=c08_queries(C08_EXCLUDE[idx]), index=idx,
                          sim=dict(maxrows=3, maxtotal=8)))
     return fams
 
